@@ -229,6 +229,118 @@ def check_own_exceptions(rep, rule, fi, nd, body_attrs, body_calls):
                                                       % '; '.join(cond_texts(rejected))) if rejected else ''), mod, node)
 
 
+# ---------------------------------------------------------------------------------------------------------------- sentinels
+def _default_of_lookup(call, node):
+    """``node`` is the default argument of the lookup ``call``: ``X.get(k, D)`` / ``X.pop(k, D)`` / ``getattr(x, n, D)`` / ``next(it, D)``"""
+    if not isinstance(call, ast.Call) or call.keywords or any(isinstance(a, ast.Starred) for a in call.args):
+        return False
+    if isinstance(call.func, ast.Attribute) and call.func.attr in ('get', 'pop') and len(call.args) == 2:
+        return call.args[1] is node
+    if isinstance(call.func, ast.Name) and call.func.id == 'getattr' and len(call.args) == 3:
+        return call.args[2] is node
+    if isinstance(call.func, ast.Name) and call.func.id == 'next' and len(call.args) == 2:
+        return call.args[1] is node
+    return False
+
+
+def module_sentinels(repo, mod):
+    """Names of the *sentinels* of module ``mod``: bound once, at module level, to a fresh ``object()``; never imported / read by another
+    module of the tree; read only as the default of a lookup (see _default_of_lookup) and as an operand of ``is`` / ``is not``; and the
+    result of such a lookup is compared on the spot or kept in a local that is read only in identity tests or where the path condition
+    says it is not the sentinel.  Then no container and no attribute ever holds the sentinel: ``X.get(k, S) is S`` says exactly that
+    ``k`` is missing from ``X`` (and ``getattr(x, 'a', S) is S`` that ``x`` has no attribute ``a``)."""
+    cached = getattr(mod, '_vt_sentinels', None)
+    if cached is not None:
+        return cached
+    out = set()
+    for name, vals in sorted(mod.assigns.items()):
+        v = vals[0] if len(vals) == 1 else None
+        if not (isinstance(v, ast.Call) and isinstance(v.func, ast.Name) and v.func.id == 'object' and not v.args and not v.keywords):
+            continue
+        if 'object' in mod.assigns or 'object' in mod.imports:
+            continue
+        if sum(1 for n in ast.walk(mod.tree) if (isinstance(n, ast.Name) and n.id == name and not isinstance(n.ctx, ast.Load)) or
+               (isinstance(n, ast.arg) and n.arg == name) or (isinstance(n, (ast.Global, ast.Nonlocal)) and name in n.names)) != 1:
+            continue
+        seen_elsewhere = False
+        for m in repo.all_internal_modules():
+            if m is mod:
+                continue
+            if any(tgt == (mod.name, name) for tgt in m.imports.values()) or \
+                    any(isinstance(n, ast.Attribute) and n.attr == name for n in ast.walk(m.tree)) or \
+                    any(isinstance(n, ast.ImportFrom) and any(a.name == '*' for a in n.names) and m._abs_module(n) == mod.name for n in ast.walk(m.tree)):
+                seen_elsewhere = True
+        if seen_elsewhere:
+            continue
+        ok = True
+        for n in ast.walk(mod.tree):
+            if not (isinstance(n, ast.Name) and n.id == name and isinstance(n.ctx, ast.Load)) or not ok:
+                continue
+            par = mod.parents.get(n)
+            if isinstance(par, ast.Compare) and all(isinstance(o, (ast.Is, ast.IsNot)) for o in par.ops):
+                continue
+            if not _default_of_lookup(par, n):
+                ok = False
+                continue
+            gp = mod.parents.get(par)
+            if isinstance(gp, ast.Compare) and all(isinstance(o, (ast.Is, ast.IsNot)) for o in gp.ops):
+                continue
+            # kept in a local: every read of it is an identity test, or sits where it is known not to be the sentinel
+            fnode = mod.enclosing_function(par)
+            fi = mod.func_of_node(fnode) if fnode is not None else None
+            if not (isinstance(gp, ast.Assign) and len(gp.targets) == 1 and isinstance(gp.targets[0], ast.Name) and gp.value is par and fi is not None):
+                ok = False
+                continue
+            var = gp.targets[0].id
+            stores = [x for x in ast.walk(fi.node) if (isinstance(x, ast.Name) and x.id == var and not isinstance(x.ctx, ast.Load)) or
+                      (isinstance(x, ast.arg) and x.arg == var)]
+            if len(stores) != 1:
+                ok = False
+                continue
+            for x in ast.walk(fi.node):
+                if not (isinstance(x, ast.Name) and x.id == var and isinstance(x.ctx, ast.Load)):
+                    continue
+                xp = mod.parents.get(x)
+                if isinstance(xp, ast.Compare) and all(isinstance(o, (ast.Is, ast.IsNot)) for o in xp.ops):
+                    continue
+                if mod.enclosing_function(x) is not fi.node:
+                    ok = False
+                    break
+                known = list(conds(fi, x)) + list(diffcon.short_circuit_conds(mod, x))
+                if not any((norm(t) in ('%s is %s' % (var, name), '%s is %s' % (name, var)) and p is False) or
+                           (norm(t) in ('%s is not %s' % (var, name), '%s is not %s' % (name, var)) and p is True) for t, p in known):
+                    ok = False
+                    break
+        if ok:
+            out.add(name)
+    mod._vt_sentinels = out
+    return out
+
+
+def presence_tests(repo, mod, test):
+    """``test`` with the sentinel idiom read as the presence test it is: ``X.get(K, S) is S`` -> ``K not in X``, ``.. is not S`` -> ``K in X``
+    (S a sentinel of the module, see module_sentinels).  Returns a new tree when something was rewritten, else ``test`` itself."""
+    sent = module_sentinels(repo, mod)
+    if not sent or not any(isinstance(n, ast.Name) and n.id in sent for n in ast.walk(test)):
+        return test
+    import copy
+
+    class X(ast.NodeTransformer):
+        def visit_Compare(self, node):
+            self.generic_visit(node)
+            if len(node.ops) != 1 or not isinstance(node.ops[0], (ast.Is, ast.IsNot)):
+                return node
+            a, b = node.left, node.comparators[0]
+            if isinstance(a, ast.Name) and a.id in sent:
+                a, b = b, a
+            if not (isinstance(b, ast.Name) and b.id in sent and isinstance(a, ast.Call) and isinstance(a.func, ast.Attribute) and
+                    a.func.attr == 'get' and len(a.args) == 2 and not a.keywords and isinstance(a.args[1], ast.Name) and a.args[1].id == b.id):
+                return node
+            op = ast.NotIn() if isinstance(node.ops[0], ast.Is) else ast.In()
+            return ast.copy_location(ast.Compare(left=a.args[0], ops=[op], comparators=[a.func.value]), node)
+    return X().visit(copy.deepcopy(test))
+
+
 # ---------------------------------------------------------------------------------------------------------------- R15.h
 CONTEXT_DROPPERS = {'pop', 'popitem', 'clear', '__delitem__'}
 
@@ -296,7 +408,7 @@ def defaults_used(fi, defaults):
     return out
 
 
-def _entailed_on_every_way(cfg, loc, st, extra, goal, goal_pol):
+def _entailed_on_every_way(cfg, loc, st, extra, goal, goal_pol, rewrite=None):
     """Does ``goal`` have truth value ``goal_pol`` whenever control reaches statement ``st``?  The condition of a node is the
     disjunction, over the normal edges into it, of the condition of the predecessor (and the outcome of the test, for a branch);
     it is cut (true) at the function entry, at the start of a loop iteration and at exception handlers, and a test that reads a
@@ -336,6 +448,8 @@ def _entailed_on_every_way(cfg, loc, st, extra, goal, goal_pol):
         f = ('or', ways) if ways else ('const', nd.kind == 'entry')
         if nd.kind == 'branch':
             t = loc.resolve(nd.test, nd.stmt) if cfg.nodes_of(nd.stmt) else nd.test
+            if rewrite is not None:
+                t = rewrite(t)
             if not (set(x.id for x in ast.walk(t) if isinstance(x, ast.Name)) & rebound):
                 own = diffcon._formula(t, atoms)
                 f = ('and', [f, own if nd.pol else ('not', own)])
@@ -416,7 +530,9 @@ def check_render_context(rep, rule, fi):
             continue
         n_sites += 1
         st = stmt_of(mod, n)
-        cs = expand_conds(loc.conds(conds(fi, n), mod))
+        # (a sentinel lookup ``context.get(k, _UNSET) is _UNSET`` is the presence test ``k not in context``)
+        as_presence = lambda t: presence_tests(rep.repo, mod, t)
+        cs = [(as_presence(t), p) for t, p in expand_conds(loc.conds(conds(fi, n), mod))]
         used = {}
         for t, _ in cs:
             for x in ast.walk(t):
@@ -431,7 +547,7 @@ def check_render_context(rep, rule, fi):
         if not ok:
             # the tests may not dominate the store (``if k in context: if not self.overwrite: continue``): decide over the
             # disjunction of the ways into the statement instead
-            ok = _entailed_on_every_way(cfg, loc, st, [(x, bool(defaults[k])) for k, x in sorted(defaults_used(fi, defaults).items())], goal, False)
+            ok = _entailed_on_every_way(cfg, loc, st, [(x, bool(defaults[k])) for k, x in sorted(defaults_used(fi, defaults).items())], goal, False, rewrite=as_presence)
         rep.check(rule, fkey(fi, 'context[%s] = ..' % norm(key)), ok,
                   'context[%s] is filled only where it is known to be unset (default configuration: %s)'
                   % (norm(key), ', '.join('%s=%r' % (k, defaults[k]) for k in sorted(used)) or 'no switch involved') if ok else
